@@ -404,12 +404,16 @@ Lemma release_idempotent_lemma : forall n tr s,
   (forall t h, nth_error (threads s) t = Some (R0 h) -> nth_error (holders s) h = Some Rel ->
      step true s (LRelSwap t) = Some (set_thread s t (RDone h false))) /\
   (* once released, always released: later calls all take that branch *)
-  (forall h l s', nth_error (holders s) h = Some Rel -> step true s l = Some s' -> nth_error (holders s') h = Some Rel).
+  (forall h l s', nth_error (holders s) h = Some Rel -> step true s l = Some s' -> nth_error (holders s') h = Some Rel) /\
+  (* in particular TemporarilyRelease on a released holder gives nothing up and changes nothing: f runs as it is *)
+  (forall t h, nth_error (threads s) t = Some (B0 h) -> nth_error (holders s) h = Some Rel ->
+     step true s (LBlkCas t) = Some (set_thread s t (PF (Some h)))).
 Proof.
-  intros n tr s H. split; [|split].
+  intros n tr s H. split; [|split; [|split]].
   - intros h. destruct (rel_once_run _ _ _ H h); auto.
   - intros t h Ht Hh. unfold step. rewrite Ht, Hh. unfold set_thread. rewrite (upd_same _ _ _ _ Hh). reflexivity.
   - intros h l s' Hr Hs. eapply released_final_step; eauto.
+  - intros t h Ht Hh. unfold step. rewrite Ht, Hh. reflexivity.
 Qed.
 
 (* ---- 6. enabledness: what can never block ---- *)
@@ -502,3 +506,78 @@ Qed.
 (* the same label list is not a behaviour of the repaired code: its 9th label (CAS before send) is not enabled *)
 Lemma f11_not_a_trace_of_repaired : run true (init 1) f11_trace = None.
 Proof. vm_compute. reflexivity. Qed.
+
+Lemma nth_error_app_old : forall A (l : list A) x i a, nth_error l i = Some a -> nth_error (l ++ [x]) i = Some a.
+Proof. intros. rewrite nth_error_app1; auto. apply nth_error_Some. congruence. Qed.
+
+Lemma nth_error_app_new : forall A (l : list A) x, nth_error (l ++ [x]) (length l) = Some x.
+Proof. intros. rewrite nth_error_app2 by lia. rewrite Nat.sub_diag. reflexivity. Qed.
+
+(* ---- 8. shared contexts: concurrent TemporarilyRelease calls on one holder (what batch.Invoke's waiters do when
+        they share a context) - at most one of them has the token given up, the others run f as they are ---- *)
+
+Definition blk_unique (s : state) : Prop :=
+  forall h, count (blk_owner h) (threads s) <= 1 /\
+            (1 <= count (blk_owner h) (threads s) ->
+             nth_error (holders s) h = Some Blk \/ nth_error (holders s) h = Some Rel).
+
+Ltac upd_facts_b :=
+  repeat match goal with
+  | E : nth_error ?l ?i = Some ?a |- context[count ?f (upd ?l ?i ?x)] =>
+      let U := fresh "U" in
+      pose proof (count_upd _ f l i a x E) as U;
+      cbn [b2n blk_owner] in U;
+      generalize dependent (count f (upd l i x)); intros
+  end.
+
+Ltac holder_goal B :=
+  match goal with
+  | |- nth_error (holders _) _ = _ \/ _ => apply B; lia
+  | |- nth_error (_ ++ [_]) _ = _ \/ _ =>
+      let K := fresh "K" in
+      assert (K := B ltac:(lia)); destruct K as [K|K]; [left|right]; apply nth_error_app_old; exact K
+  | |- nth_error (upd ?l ?h ?x) ?h0 = _ \/ _ =>
+      let Q := fresh "Q" in
+      destruct (Nat.eq_dec h h0) as [Q|Q];
+      [ subst;
+        first [ left; eapply nth_error_upd_same; eassumption
+              | right; eapply nth_error_upd_same; eassumption
+              | exfalso; lia
+              | exfalso; let K := fresh "K" in assert (K := B ltac:(lia)); destruct K; congruence ]
+      | rewrite nth_error_upd_other by assumption; apply B; lia ]
+  end.
+
+Lemma blk_unique_step : forall s l s', blk_unique s -> step true s l = Some s' -> blk_unique s'.
+Proof.
+  intros s l s' Hinv H. unfold blk_unique in *.
+  destruct l; step_cases H; intros h0; destruct (Hinv h0) as [A B];
+    assert (D : count (blk_owner h0) (threads s) = 0 \/
+                (nth_error (holders s) h0 = Some Blk \/ nth_error (holders s) h0 = Some Rel))
+      by (destruct (count (blk_owner h0) (threads s)); [left; reflexivity | right; apply B; lia]);
+    rewrite ?count_app; cbn [count blk_owner]; upd_facts_b;
+    repeat match goal with
+    | U : context[Nat.eqb ?a ?b] |- _ => destruct (Nat.eqb_spec a b); [subst|]
+    end; cbn [b2n] in *;
+    (split; [ try lia; try (destruct D as [D|[D|D]]; [lia|congruence|congruence]) | intro G; try holder_goal B ]).
+Qed.
+
+Lemma blk_unique_run : forall n tr s, run true (init n) tr = Some s -> blk_unique s.
+Proof.
+  intros n tr s H. apply (run_invariant true blk_unique) with (tr := tr) (s := init n); auto.
+  - intros; eapply blk_unique_step; eauto.
+  - intros h. simpl. split; [lia|intro; lia].
+Qed.
+
+Lemma shared_context_lemma : forall n tr s h,
+  run true (init n) tr = Some s ->
+  (* at most one TemporarilyRelease call per holder is between giving the token up and re-acquiring it *)
+  count (blk_owner h) (threads s) <= 1 /\
+  (* while there is one, the holder is not acquired ... *)
+  (1 <= count (blk_owner h) (threads s) -> nth_error (holders s) h = Some Blk \/ nth_error (holders s) h = Some Rel) /\
+  (* ... so every further TemporarilyRelease on the same holder runs f without touching the channel *)
+  (forall t, 1 <= count (blk_owner h) (threads s) -> nth_error (threads s) t = Some (B0 h) ->
+     step true s (LBlkCas t) = Some (set_thread s t (PF (Some h)))).
+Proof.
+  intros n tr s h H. destruct (blk_unique_run _ _ _ H h) as [A B]. split; auto. split; auto.
+  intros t G Ht. unfold step. rewrite Ht. destruct (B G) as [K|K]; rewrite K; reflexivity.
+Qed.
